@@ -195,6 +195,21 @@ CHECKS = {
         "float-TWAP part; gmx2 1e-9. On closed deribit bars options carry the mark of the last valued open bar; correctness of the position "
         "amounts themselves belongs to C07/C08/C10/C15/C17; ownership is read from action records. Sampled, not exhaustive.",
     },
+    "C02": {
+        "technique": "differential runtime monitor: real Actuator runs on a history and on prefix-identical histories with independently regenerated futures, compared bar by bar (account rows, actions, in-hook snapshot digests); deep before/after digests of every supplied frame; run-twice identity",
+        "text": "Generated raw histories of every market type (uniswap float/int64 ticks, aave, uniswap+aave, squeeth with its pool and live TWAP, "
+        "hourly deribit books next to a minutely pool in both attach orders, deribit alone, GMX v1, GMX v2) are prepared by demeter's own code "
+        "(add_statistic_column, get_price_from_data helpers, set_token_data, set_price, every _resample) and run at 1min/5min/15min/1h under "
+        "scripts whose every decision is seeded by the snapshot they were handed and sized by balances, get_max_* and TWAP helpers. For 2-3 "
+        "cuts per history (first bar, last-but-one, mid, open position, mid-bin, book-hour edge) the future is regenerated (same length, "
+        "shorter, longer, none) and every bar wholly inside the shared prefix must have identical account row, identical snapshots in "
+        "before_bar/on_bar/after_bar (digested inside the hook) and identical recorded actions. Every supplied frame, and the frames held at "
+        "run entry, must keep its deep digest (values with types, dtypes, index, nested ask/bid lists), and a second run on the same frame "
+        "objects with a fresh Actuator/markets must reproduce the first exactly.",
+        "note": "Sampled synthetic histories and scripts. A bar of an N-minute run owns the raw rows of [t, t+N). Triggers and initialize are "
+        "not instrumented. Pandas >= 3 copy-on-write makes a dropped row .copy() unobservable. Deribit histories avoid 00:00; only the "
+        "earliest difference of a pair is reported. Trusted: Python equality, repr of Decimal/float, sha1.",
+    },
     "C04": {
         "technique": "invariant at quiescent points: deep state projection compared around every raising call, rejection sites taken from tracebacks",
         "text": "Frozen-market scenes of every market type (uniswap, aave, uniswap+aave, squeeth with its pool, deribit incl. closed bars, "
